@@ -389,7 +389,13 @@ string Subprocess::communicate(
   size_t stdin_offset = 0;
   size_t stdout_bytes = 0;
   deque<string> stdout_queue;
-  while ((this->wait(true) < 0) && (now() < deadline_usecs)) {
+  // A deadline of zero means there is no deadline
+  bool timed_out = false;
+  while (this->wait(true) < 0) {
+    if (deadline_usecs && (now() >= deadline_usecs)) {
+      timed_out = true;
+      break;
+    }
     if (p.empty()) {
       this->wait();
       break;
@@ -439,7 +445,7 @@ string Subprocess::communicate(
     }
   }
 
-  if (now() >= deadline_usecs) {
+  if (timed_out) {
     // TODO: we should be a bit more polite here - send SIGTERM, wait a few
     // seconds, then send SIGKILL
     this->kill(SIGKILL);
